@@ -677,18 +677,22 @@ def upvar_feeds(f, hcode, cb):
                     if dd[0] == "stmt":
                         rv2 = hcode.blocks[dd[1]]["stmts"][dd[2]]["rv"]
                         if "ref" in rv2 and not rv2["ref"]["proj"]:
-                            cap[names[k].replace("_ref__", "")] = rv2["ref"]["l"]
+                            cap[names[k].replace("_ref__", "")] = (rv2["ref"]["l"], None)
+                        elif "ref" in rv2 and len(rv2["ref"]["proj"]) == 1 and isinstance(rv2["ref"]["proj"][0], dict) \
+                                and "f" in rv2["ref"]["proj"][0] and rv2["ref"]["proj"][0].get("name"):
+                            # closures capture disjoint fields: `&mut settings.limit`
+                            cap[names[k].replace("_ref__", "")] = (rv2["ref"]["l"], rv2["ref"]["proj"][0]["name"])
     out = {}
-    for nm, l in cap.items():
+    for nm, (l, fld) in cap.items():
         fs = set()
         for (bb, j, dst, rv, s) in hcode.stores():
-            if bb not in hcode.reachable:
+            if bb not in hcode.reachable or (fld is not None and dst["l"] == l):
                 continue
             last = None
             for e in dst["proj"]:
                 if isinstance(e, dict) and "f" in e and e.get("name"):
                     last = (e.get("of"), e["name"])
-            if last and depends_on_local(hcode, rv, l):
+            if last and (depends_on_local(hcode, rv, l) if fld is None else depends_on_place(hcode, rv, l, fld)):
                 fs.add(last)
         out[nm] = fs
     return out
